@@ -5,6 +5,7 @@ package main
 // what was acknowledged, what was deleted, which bytes each session received.
 import (
 	"bufio"
+	"net/url"
 	"regexp"
 	"encoding/json"
 	"fmt"
@@ -42,6 +43,7 @@ type repoShadow struct {
 	tags     map[string]string      // tag -> real digest
 	pushed   map[string]bool        // content (as string) ever pushed or mounted to this repository
 	dirty    bool                   // a collection ran: retained set is judged by the GC properties, not here
+	orphans  map[string]bool        // digests that were children of an index since deleted by digest
 	refDirty bool                   // referrers bookkeeping no longer exact (blob of an artifact deleted, switch toggled …)
 }
 
@@ -868,6 +870,24 @@ func (m *Monitors) mDel(h *H, a []string, r Resp) {
 	}
 	real := h.tk.realDigest(ref)
 	if ms, ok := rs.mans[real]; ok {
+		var idx types.Index
+		if json.Unmarshal(ms.raw, &idx) == nil {
+			if rs.orphans == nil {
+				rs.orphans = map[string]bool{}
+			}
+			for _, c := range idx.Manifests {
+				rs.orphans[c.Digest.String()] = true
+				// and their descendants
+				if cm, ok := rs.mans[c.Digest.String()]; ok {
+					var ci types.Index
+					if json.Unmarshal(cm.raw, &ci) == nil {
+						for _, cc := range ci.Manifests {
+							rs.orphans[cc.Digest.String()] = true
+						}
+					}
+				}
+			}
+		}
 		// the manifest is gone from the index; its bytes stay as a blob until collected
 		if !ms.blobGone {
 			rs.blobs[real] = ms.raw
@@ -989,6 +1009,45 @@ func (m *Monitors) refs(h *H, a []string, r Resp) {
 		}
 	}
 	paged := r.Link != "" || kv(a, "page") != "" || kv(a, "cache") != ""
+	if r.Link != "" && kv(a, "page") == "" && kv(a, "cache") == "" {
+		// follow the Link chain: the union of the pages is the full list (minus single entries that cannot fit), each once
+		all := append([]string{}, got...)
+		link := r.header.Get("Link")
+		for hops := 0; hops < 50 && link != ""; hops++ {
+			i := strings.Index(link, ">")
+			if i < 2 {
+				break
+			}
+			lu, err := url.Parse(link[1:i])
+			if err != nil {
+				break
+			}
+			pg := h.do("GET", lu.Path, reqOpt{query: lu.Query(), mode: "refs"})
+			if pg.Status != 200 {
+				m.flag(h, "C07.paging", fmt.Sprintf("page %s of the referrers of %s answered %d", lu.Query().Get("page"), sTok, pg.Status))
+				break
+			}
+			if pg.Body != "[]" {
+				all = append(all, splitDescs(pg.Body)...)
+			}
+			link = pg.header.Get("Link")
+		}
+		cnt := map[string]int{}
+		for _, g := range all {
+			cnt[g]++
+			if cnt[g] == 2 {
+				m.flag(h, "C07.paging", fmt.Sprintf("following the Link chain lists %s twice", g))
+			}
+			if !exp[g] {
+				m.flag(h, "C07.paging", fmt.Sprintf("following the Link chain lists %s which is not a present manifest with that subject", g))
+			}
+		}
+		for e := range exp {
+			if cnt[e] == 0 && !tooBig[e] {
+				m.flag(h, "C07.paging", fmt.Sprintf("following the Link chain never lists %s", e))
+			}
+		}
+	}
 	if !paged {
 		for e := range exp {
 			if !seen[e] && !tooBig[e] {
@@ -1021,7 +1080,19 @@ func (m *Monitors) raw(h *H, a []string, r Resp) {
 
 func (m *Monitors) gc(h *H, repo string) {
 	rs := m.repo(repo)
-	rs.dirty = true
+	if *h.conf.Storage.GC.Untagged || rs.refDirty || (h.conf.Storage.GC.ReferrersDangling != nil && *h.conf.Storage.GC.ReferrersDangling) {
+		// the policy may remove manifests: what is retained is judged by the collection properties (C05, C06), not here
+		rs.dirty = true
+		return
+	}
+	// untagged collection off and no manifest blob deleted through the blob API: every index entry and everything
+	// reachable from it is retained, only unreferenced plain blobs may be removed — drop those from the shadow
+	for d := range rs.blobs {
+		if g := h.do("HEAD", "/v2/"+repo+"/blobs/"+d, reqOpt{mode: "head"}); g.Status != 200 {
+			delete(rs.blobs, d)
+			delete(m.aged, repo+"|"+d)
+		}
+	}
 }
 
 // ---------------------------------------------------------------- directory level (C10, C14)
@@ -1215,6 +1286,9 @@ func (m *Monitors) afterRestart(h *H, sameConf bool) {
 	}
 	for repo, before := range m.pre {
 		after := m.observe(h, repo)
+		if os.Getenv("VERIF_DEBUG") != "" {
+			fmt.Fprintf(os.Stderr, "restart %s\n before %q\n after  %q\n", repo, before, after)
+		}
 		for i := range before {
 			if i < len(after) && before[i] != after[i] {
 				name := "C10.restart-differs"
@@ -1335,6 +1409,7 @@ type gcPre struct {
 	manifest map[string]bool     // real digest -> GET manifest 200
 	refs     map[string][]string // subject -> sorted referrers listing
 	obs      []string
+	aged     map[string]bool
 }
 
 // pullable: the manifest behind ref and everything it references (children, config, layers) can be pulled
@@ -1409,6 +1484,10 @@ func (m *Monitors) beforeGC(h *H, repo string) {
 		return
 	}
 	m.gcBefore = m.gcSnapshot(h, repo)
+	m.gcBefore.aged = map[string]bool{}
+	for k, v := range m.aged {
+		m.gcBefore.aged[k] = v
+	}
 }
 
 func (m *Monitors) afterGC(h *H, repo string) {
@@ -1433,11 +1512,16 @@ func (m *Monitors) afterGC(h *H, repo string) {
 		ms := rs.mans[d]
 		// not judged once a manifest blob was deleted through the blob API (the index entry above it cannot be walked)
 		if untaggedOff && ms != nil && ms.subject == "" && !rs.refDirty {
-			m.flag(h, "C05.untagged-removed", fmt.Sprintf("manifest %s removed although untagged collection is off", h.tk.tokDigest(d)))
+			name := "C05.untagged-removed"
+			if rs.orphans[d] {
+				// cause: the manifest had become a child record of an index (no top-level entry of its own) and that index was deleted
+				name = "C05.untagged-removed.child-of-deleted-index"
+			}
+			m.flag(h, name, fmt.Sprintf("manifest %s removed although untagged collection is off", h.tk.tokDigest(d)))
 		}
 	}
 	for d, was := range pre.present {
-		if was && !post.present[d] && grace && !m.aged[repo+"|"+d] {
+		if was && !post.present[d] && grace && !pre.aged[repo+"|"+d] {
 			m.flag(h, "C05.recent-removed", fmt.Sprintf("%s is younger than the grace period and was removed", h.tk.tokDigest(d)))
 		}
 	}
@@ -1529,9 +1613,59 @@ func (m *Monitors) afterGC(h *H, repo string) {
 		if strings.HasPrefix(h.tk.contentName(rs.blobs[d]), "R(") {
 			continue
 		}
-		if _, plain := rs.blobs[d]; plain && (!grace || m.aged[repo+"|"+d]) && !post.manifest[d] {
+		if _, plain := rs.blobs[d]; plain && (!grace || pre.aged[repo+"|"+d]) && !post.manifest[d] {
 			m.flag(h, "C06.garbage-kept", fmt.Sprintf("unreferenced blob %s survives a collection with the grace period elapsed or disabled", h.tk.tokDigest(d)))
 		}
 	}
 	m.gcBefore = nil
+}
+
+// generic: monitors that apply to every request line
+func (m *Monitors) generic(h *H, line, out string) {
+	t := strings.Fields(line)
+	if len(t) < 2 {
+		return
+	}
+	switch t[0] {
+	case "UPOST", "UPATCH", "UPUT", "UGET", "UDEL", "BGET", "BHEAD", "BDEL", "MPUT", "MGET", "MHEAD", "MDEL", "TAGS", "REFS":
+		// only repository names of the OCI grammar are routed (C15, C16)
+		if !reRepo.MatchString(t[1]) && !strings.HasPrefix(out, "404 ") {
+			m.flag(h, "C15.routes-grammar", fmt.Sprintf("%s addressed to the invalid repository name %q was routed: %s", t[0], t[1], strings.SplitN(out, " loc=", 2)[0]))
+		}
+	}
+	if t[0] == "RAW" && len(t) >= 3 && strings.HasPrefix(t[2], "/v2/") && !strings.ContainsAny(t[2], "%") && !strings.Contains(t[2], "//") &&
+		!strings.Contains(t[2], "/./") && !strings.Contains(t[2], "/../") && !strings.HasSuffix(t[2], "/.") && !strings.HasSuffix(t[2], "/..") {
+		// /v2/<name>/<tail>: the name of a raw path that reaches a handler must be of the grammar
+		p := strings.Trim(strings.TrimPrefix(t[2], "/v2/"), "/")
+		for _, tail := range []string{"/tags/list", "/manifests/", "/blobs/", "/referrers/"} {
+			if i := strings.LastIndex(p, tail); i > 0 {
+				name := p[:i]
+				rest := p[i+len(tail):]
+				if tail == "/blobs/" && strings.HasPrefix(rest, "uploads/") {
+					continue
+				}
+				if (tail == "/tags/list" && rest == "" || tail != "/tags/list" && rest != "" && !strings.Contains(rest, "/")) &&
+					!reRepo.MatchString(name) && !strings.HasPrefix(out, "404 ") {
+					m.flag(h, "C15.routes-grammar", fmt.Sprintf("raw %s %s with the invalid repository name %q was routed: %s", t[1], t[2], name, out))
+				}
+				break
+			}
+		}
+	}
+	// nothing outside the root is ever served (C16)
+	if strings.Contains(out, "outsidesecret") {
+		m.flag(h, "C16.outside-root", "content of a layout outside the root directory was served or acknowledged: "+strings.SplitN(out, " ct=", 2)[0])
+	}
+	// the sentinel tree around the root never changes (C16)
+	if h.sentinel != "" && h.outside != nil {
+		now := fsSnapshot(filepath.Join(h.sentinel, "outside"))
+		if strings.Join(now, "\n") != strings.Join(h.outside, "\n") {
+			m.flag(h, "C16.sentinel-changed", "the directory next to the root was modified")
+			h.outside = now
+		}
+		es, _ := os.ReadDir(h.sentinel)
+		if len(es) != 2 {
+			m.flag(h, "C16.sentinel-changed", fmt.Sprintf("%d entries next to the root, expected the root and the outside layout", len(es)))
+		}
+	}
 }
